@@ -4,6 +4,7 @@ from ..idioms import dispatch, entry_points, update_base, loaded_from, field_of,
 from .cw3common import (SENDER, BLOCK, CS, IS_PASSED, IS_REJECTED, IS_EXPIRED, STATUS, VOTE, CONTRACTS, status, items,
                         cs_call, exec_paths, is_expired_cond, cs_is_passed, cs_not_passed, stored_status_in, cs_term)
 from . import C04
+from .listing import extract, deep_walk
 
 ID = "C03"
 RULES = {
@@ -201,6 +202,7 @@ def check_table(ctx):
 def check_queries(ctx, it):
     PROP = it["proposals"]
     n = 0
+    per = {}
     for crate in CONTRACTS:
         eps = entry_points(ctx.facts, crate)
         groups = dispatch(ctx.summarise(eps["query"], opaque={CS}))
@@ -214,8 +216,9 @@ def check_queries(ctx, it):
                         n += 1
                         check_resp(ctx, "%s::query/%s" % (crate, variant), s, None)
                 else:
-                    # the mapping function is applied by Iterator::map: summarise it
-                    maps = [x for x in walk(p.ret) if x[0] == "call" and x[1].endswith("Iterator::map")]
+                    # what one listed entry is made of: the function applied by Iterator::map (summarised), or the value the
+                    # listing loop pushes for the element it took
+                    maps = [x for x in deep_walk(p, p.ret) if x[0] == "call" and x[1].endswith("Iterator::map")]
                     for m in maps:
                         f = m[2][1]
                         fb = None
@@ -232,24 +235,41 @@ def check_queries(ctx, it):
                         for cp in cps:
                             for s in [x for x in walk(cp.ret) if x[0] == "struct" and x[1].endswith("ProposalResponse")]:
                                 n += 1
+                                per[(crate, variant)] = per.get((crate, variant), 0) + 1
                                 check_resp(ctx, "%s::query/%s" % (crate, variant), s, cp)
+                    L = extract(p)
+                    if L is not None and L.loop is not None and L.took:
+                        if L.pushed is None:
+                            ctx.ob("R03.4", "%s::query/%s" % (crate, variant), False, detail="the listing loop takes a proposal and lists nothing for it")
+                        else:
+                            for s in [x for x in walk(L.pushed) if x[0] == "struct" and x[1].endswith("ProposalResponse")]:
+                                n += 1
+                                per[(crate, variant)] = per.get((crate, variant), 0) + 1
+                                check_resp(ctx, "%s::query/%s" % (crate, variant), s, p)
+        for variant in ("ListProposals", "ReverseProposals"):
+            ctx.ob("R03.4", "floor:%s::query/%s entries examined" % (crate, variant), per.get((crate, variant), 0) >= 1, trivial=True,
+                   detail="no ProposalResponse built for a listed proposal was found for %s::%s (neither a mapping function nor a pushing loop): "
+                          "the rule would be blind" % (crate, variant))
     ctx.floor("R03.4", "ProposalResponse constructions", n, 6)
 
 
 def check_resp(ctx, key, s, cp):
     f = dict(s[2])
     st = f.get("status")
+    # the proposal that is being reported: the value whose title / msgs / expires are copied
+    y = f.get("title")[1] if f.get("title") is not None and f.get("title")[0] == "field" and f.get("title")[2] == "title" else None
     x = None
+    blk = None
     if st is not None and st[0] == "call" and st[1] == CS and len(st[2]) == 2:
         x = st[2][0]
         blk = st[2][1]
-    good = x is not None and (blk == BLOCK or blk == ("param", "block") or (blk[0] == "field" and blk[2] == "block"))
+    good = x is not None and y is not None and x == y and \
+        (blk == BLOCK or blk == ("param", "block") or (blk[0] == "field" and blk[2] == "block"))
     if good:
-        # the proposal whose fields are reported must be the one whose status is derived
-        good = f.get("title") == ("field", x, "title") and f.get("msgs") == ("field", x, "msgs") and f.get("expires") == ("field", x, "expires")
+        good = f.get("msgs") == ("field", y, "msgs") and f.get("expires") == ("field", y, "expires")
     th = f.get("threshold")
-    good_t = th is not None and th[0] == "call" and th[1].endswith("Threshold::to_response") and x is not None and \
-        th[2] == (("field", x, "threshold"), ("field", x, "total_weight"))
+    good_t = th is not None and th[0] == "call" and th[1].endswith("Threshold::to_response") and y is not None and \
+        th[2] == (("field", y, "threshold"), ("field", y, "total_weight"))
     ctx.ob("R03.4", key + "/status", good, detail="reported status is %s, not current_status(<the reported proposal>, block)" % show(st)[:200],
            sample={"status": show(st)[:160]})
     ctx.ob("R03.4", key + "/threshold", good_t, detail="reported threshold is %s, not stored.threshold.to_response(stored.total_weight)" % show(th)[:200],
